@@ -399,6 +399,54 @@ fn on_step<K: Kit>(tier: &str, idx: usize, st: &mut PrmStep<K>, rep: &mut Report
     if st.rig.snapshot().key() != st.post.key() {
         fail!("problem-replacement-changed-roadmap", "the query sequence modified the roadmap".into(), "query-P1-again");
     }
+    // ---- P5: the reversed problem again, this time with an IDENTICAL space behind ANOTHER Arc (a helper
+    // that builds problem definitions from scratch): the roadmap is a function of the samples, not of
+    // which allocation holds the space - it stays, and the answer is P2's
+    {
+        let other_space = Arc::new(crate::seams::Scripted::<K>::new(K::build(&st.sc.spec), st.rig.alphabet.clone()));
+        let pd5 = Arc::new(Pd::<K> { space: other_space, start_states: vec![p2_start.clone()], goal: p2_goal.clone() });
+        st.rig.drv.set_problem_definition(pd5);
+        let res5 = match guarded(|| st.rig.drv.solve(LONG)) {
+            Ok(r) => r,
+            Err(_) => fail!("query-panicked", "solve unwound for a problem whose space sits behind another Arc".into(), "query-P5"),
+        };
+        rep.count("other_arc_space_queries", 1);
+        if st.rig.snapshot().key() != st.post.key() {
+            fail!("problem-replacement-changed-roadmap", "set_problem_definition with an identical space behind another Arc modified the roadmap".into(), "query-P5");
+        }
+        if let Err((k, w)) = check_query::<K>(st.rig, post, &p2_start, &p2_goal, &res5, rep) {
+            fail!(format!("replaced-problem:{k}"), w, "query-P5");
+        }
+    }
+    // ---- P6: problems owned by the planner alone. A is installed and queried; B replaces it (A is freed);
+    // C is allocated next - the allocator hands out A's block again - and asks the REVERSED question.
+    // Whatever a planner remembers about "the problem I answered last" must not be keyed by its address.
+    {
+        let pa = Arc::new(Pd::<K> { space: st.rig.space.clone(), start_states: vec![start.clone()], goal: goal.clone() });
+        let addr_a = Arc::as_ptr(&pa) as usize;
+        st.rig.drv.set_problem_definition(pa);
+        let _ = guarded(|| st.rig.drv.solve(LONG));
+        // every part of C exists before A is freed, so that the next block of that size is C's
+        let pb = Arc::new(Pd::<K> { space: st.rig.space.clone(), start_states: vec![p3_centre.clone()], goal: p3_goal.clone() });
+        let (c_space, c_starts, c_goal) = (st.rig.space.clone(), vec![p2_start.clone()], p2_goal.clone());
+        st.rig.drv.set_problem_definition(pb); // drops the planner's (only) reference to A
+        let pc = Arc::new(Pd::<K> { space: c_space, start_states: c_starts, goal: c_goal });
+        if Arc::as_ptr(&pc) as usize == addr_a {
+            rep.count("problem_address_reused", 1);
+        }
+        st.rig.drv.set_problem_definition(pc);
+        let res6 = match guarded(|| st.rig.drv.solve(LONG)) {
+            Ok(r) => r,
+            Err(_) => fail!("query-panicked", "solve unwound for a problem allocated where an earlier one lived".into(), "query-P6"),
+        };
+        rep.count("address_reuse_queries", 1);
+        if let Err((k, w)) = check_query::<K>(st.rig, post, &p2_start, &p2_goal, &res6, rep) {
+            fail!(format!("replaced-problem:{k}"), w, "query-P6");
+        }
+        if st.rig.snapshot().key() != st.post.key() {
+            fail!("problem-replacement-changed-roadmap", "the query sequence modified the roadmap".into(), "query-P6");
+        }
+    }
     // ---- setup again clears the roadmap
     let (pd, w) = (st.rig.pd.clone(), st.rig.world.clone());
     st.rig.drv.setup(pd, w);
